@@ -373,6 +373,18 @@ class Render:
             return r.choice(['// c', ' // a { b: c; }', '\n// "q', '// /* x', "  // it's", '//', '// #{$nope}']) + '\n'
         return '\n' * r.randint(1, 3) + ' ' * r.randint(0, 6)
 
+    def b(self):
+        """Extra text between the last token of a statement and its terminating `;` (blanks, newlines, a silent comment)."""
+        if self.gap is None:
+            return ''
+        r = self.gap
+        k = r.random()
+        if k < 0.8:
+            return ''
+        if k < 0.93:
+            return r.choice([' ', '  ', '\t', '\n', ' \n  '])
+        return r.choice([' // c\n', '// x\n  ', ' //\n'])
+
     def e(self, E):
         out = []
         for a in E:
@@ -401,9 +413,9 @@ class Render:
     def stmt(self, s, ind):
         k = s[0]
         if k == 'var':
-            return '%s$%s: %s%s;%s' % (ind, self.name(s[1]), self.e(s[2]), s[3], self.g())
+            return '%s$%s: %s%s%s;%s' % (ind, self.name(s[1]), self.e(s[2]), s[3], self.b(), self.g())
         if k == 'decl':
-            return '%s%s: %s;%s' % (ind, self.e(s[1]), self.e(s[2]), self.g())
+            return '%s%s: %s%s;%s' % (ind, self.e(s[1]), self.e(s[2]), self.b(), self.g())
         if k == 'rule':
             return self.block(self.e(s[1]), s[2], ind)
         if k == 'media':
@@ -415,12 +427,12 @@ class Render:
         if k == 'include':
             head = '@include %s(%s)' % (self.name(s[1]), self.args(s[2]))
             if s[3] is None:
-                return '%s%s;%s' % (ind, head, self.g())
+                return '%s%s%s;%s' % (ind, head, self.b(), self.g())
             return self.block(head, s[3], ind)
         if k == 'content':
-            return '%s@content;%s' % (ind, self.g())
+            return '%s@content%s;%s' % (ind, self.b(), self.g())
         if k == 'return':
-            return '%s@return %s;%s' % (ind, self.e(s[1]), self.g())
+            return '%s@return %s%s;%s' % (ind, self.e(s[1]), self.b(), self.g())
         if k == 'if':
             t = '%s@if %s {%s\n%s%s%s}' % (ind, self.e(s[1]), self.g(), self.stmts(s[2], ind + '  '), self.g(), ind)
             if s[3] is not None:
@@ -436,13 +448,13 @@ class Render:
         if k == 'comment':
             return '%s/* %s */' % (ind, s[1])          # nothing is added on a line that holds a loud comment
         if k == 'debug':
-            return '%s@%s %s;%s' % (ind, s[1], s[2], self.g())
+            return '%s@%s %s%s;%s' % (ind, s[1], s[2], self.b(), self.g())
         if k == 'import':
             self.nfile += 1
             fname = 'p%d' % self.nfile
             text = self.stmts(s[2], '')
             self.files['_%s.scss' % fname] = (HEADER if 'math.' in text else '') + text
-            return '%s@import "%s";%s' % (ind, fname, self.g())
+            return '%s@import "%s"%s;%s' % (ind, fname, self.b(), self.g())
         raise ValueError(k)
 
 
